@@ -117,7 +117,8 @@ func runC10(c *run.Ctx) {
 	per := c.N(2, 1000)
 	defects := []string{"unknown-field", "undeclared-arg-alone", "undeclared-arg-beside", "undeclared-arg-replacing", "missing-required-arg",
 		"unknown-directive", "misplaced-directive", "undefined-inline-type", "undefined-fragment-type", "undefined-spread",
-		"unknown-directive-on-fragment-definition", "misplaced-directive-on-fragment-definition", "unknown-directive-on-operation", "required-arg-null-variable"}
+		"unknown-directive-on-fragment-definition", "misplaced-directive-on-fragment-definition", "unknown-directive-on-operation", "required-arg-null-variable",
+		"directive-missing-required-arg", "directive-undeclared-arg"}
 	injected := 0
 	for i := 0; i < nt && !c.TooMany(); i++ {
 		kinds := []string{"iface", "any", "reflect"}
@@ -227,6 +228,23 @@ func runC10(c *run.Ctx) {
 						t.Dirs = append(t.Dirs, d)
 					}
 					offender = "nope_dir_zz"
+				case "directive-missing-required-arg", "directive-undeclared-arg":
+					// @skip / @include without their `if: Boolean!`; or with an argument they do not declare
+					d := model.DirUse{Name: []string{"skip", "include"}[(p+i)%2]}
+					offender = d.Name
+					if defect == "directive-undeclared-arg" {
+						d.Args = []model.Arg{{Name: "if", Value: d.Name == "include"}, {Name: "zz_undeclared", Value: int64(1)}}
+						offender = "zz_undeclared"
+					}
+					switch t := sel.(type) {
+					case *model.Field:
+						t.Dirs = append(t.Dirs, d)
+						t.Alias = c10Key
+					case *model.Inline:
+						t.Dirs = append(t.Dirs, d)
+					case *model.Spread:
+						t.Dirs = append(t.Dirs, d)
+					}
 				case "misplaced-directive":
 					d := model.DirUse{Name: "deprecated"} // declared on FIELD_DEFINITION | ENUM_VALUE only
 					switch t := sel.(type) {
